@@ -20,7 +20,8 @@ def claim(pid, category, technique, text, note, ref):
 
 claim("C04", "exploration",
       "property-based testing (Hypothesis): round-trip + accept/reject oracle over per-wire-class constructed values; "
-      "byte-mutation fuzzing of the decoder with an audit-hook oracle (atheris campaign in the thorough tier)",
+      "byte-mutation fuzzing of the decoder with an audit-hook oracle (atheris campaign in the thorough tier); "
+      "concurrent encoders in threads compared with the sequential encoding of the same value",
       "Generated-input search with an explicit oracle: every value class the statement lists is a named generator "
       "bucket, the round trip is compared type-exact and bit-exact, dumpable() is compared with an independent "
       "transcription of the statement, and decoding arbitrary bytes is watched by a CPython audit hook. It samples, "
@@ -112,7 +113,8 @@ claim("C06", "exploration",
 
 claim("C20", "exploration",
       "property-based testing (Hypothesis): generated directory trees with file sizes bucketed around multiples of the "
-      "chunk size, chunk sizes, filters and directions; recursive byte-for-byte comparison against the filtered source",
+      "chunk size, chunk sizes, filters and directions; recursive byte-for-byte comparison against the filtered source; "
+      "one injected fault (a remote read that outlasts the request timeout: reported failure or exact copy)",
       "Trees, chunk sizes and filters are generated with the boundary cases the statement lists as named buckets; the "
       "oracle is the source tree minus what the filter rejects, compared path by path and byte by byte after a real "
       "upload/download over a classic connection pair.",
